@@ -106,6 +106,7 @@ type c07Query struct {
 	n        int // CountingWindow(n)
 	lower    bool
 	compact  bool
+	join     bool // the group column comes from a joined table: written m.d in SELECT / GROUP BY / ORDER BY, delivered as d
 }
 
 var c07OpSym = map[string]string{"add": "+", "sub": "-", "mul": "*", "div": "/"}
@@ -225,11 +226,15 @@ func (q *c07Query) sql() string {
 	if q.distinct {
 		sb.WriteString("DISTINCT ")
 	}
-	sb.WriteString("d")
+	gcol, from := "d", "stream"
+	if q.join {
+		gcol, from = "m.d", "stream JOIN meta m ON k = m.id"
+	}
+	sb.WriteString(gcol)
 	for _, it := range q.items {
 		sb.WriteString(", " + it.e.sql(q, 0, false) + " AS " + it.alias)
 	}
-	fmt.Fprintf(&sb, " FROM stream GROUP BY d, CountingWindow(%d)", q.n)
+	fmt.Fprintf(&sb, " FROM %s GROUP BY %s, CountingWindow(%d)", from, gcol, q.n)
 	if q.having != nil {
 		sb.WriteString(" HAVING " + q.having.sql(q, false))
 	}
@@ -239,7 +244,11 @@ func (q *c07Query) sql() string {
 		} else {
 			sb.WriteString(", ")
 		}
-		sb.WriteString(strings.Fields(o)[0] + q.orderTxt[i])
+		key := strings.Fields(o)[0]
+		if q.join && key == "d" {
+			key = "m.d"
+		}
+		sb.WriteString(key + q.orderTxt[i])
 	}
 	if q.limit >= 0 {
 		fmt.Fprintf(&sb, " LIMIT %d", q.limit)
@@ -696,6 +705,25 @@ func (c07) Gen(rng *rand.Rand, tier string, idx int) Case {
 	}
 	stat["mode:"+mode] = true
 
+	if mode == "win" && rng.Intn(3) == 0 {
+		// the group column is a joined table's column, spelled with the table alias everywhere in the statement; the
+		// delivered rows carry its flat name, and ORDER BY keys in any position must find it
+		q.join = true
+		hasD := false
+		for _, o := range q.order {
+			if strings.Fields(o)[0] == "d" {
+				hasD = true
+			}
+		}
+		if !hasD && len(q.order) <= 2 && rng.Intn(3) > 0 {
+			q.order, q.orderTxt = append(q.order, "d "+[]string{"a", "d"}[rng.Intn(2)]), append(q.orderTxt, "")
+			if strings.HasSuffix(q.order[len(q.order)-1], " d") {
+				q.orderTxt[len(q.orderTxt)-1] = " DESC"
+			}
+		}
+		c.Cfg = append(c.Cfg, []string{"join", "1"})
+		stat["group-column-from-joined-table"] = true
+	}
 	sqlText := q.sql()
 	if mode != "e2e" && q.limit > 0 && rng.Intn(3) == 0 {
 		// the cap given programmatically: the statement carries no LIMIT, types.Config.Limit is set on the parsed
@@ -941,7 +969,40 @@ func (c07) Exec(c Case) [][][]string {
 			return fail("filter: " + err.Error())
 		}
 		st.AddSyncSink(sink)
-		if mode == "win" {
+		if c07CfgVal(c, "join") == "1" {
+			// table meta: one row {id: g, d: g} per group value of the case; the stream rows carry the value as k
+			keys, err := st.JoinKeyFields("meta")
+			if err != nil {
+				return fail("joinkeys: " + err.Error())
+			}
+			seen := map[interface{}]bool{}
+			var trows []map[string]interface{}
+			for _, op := range c.Ops {
+				for _, t := range op {
+					if !strings.HasPrefix(t, "s:") {
+						continue
+					}
+					if v, ok := c07ParseVal(t); ok {
+						if sv, isStr := v.(string); isStr && !seen[sv] {
+							seen[sv] = true
+							trows = append(trows, map[string]interface{}{"id": sv, "d": sv})
+						}
+					}
+				}
+			}
+			if _, err := st.RegisterMemoryTable("meta", keys, trows); err != nil {
+				return fail("table: " + err.Error())
+			}
+			inner := st.Emit
+			st.Start()
+			emit = func(r map[string]interface{}) {
+				if v, ok := r["d"]; ok {
+					r["k"] = v
+					delete(r, "d")
+				}
+				inner(r)
+			}
+		} else if mode == "win" {
 			st.Start()
 			emit = st.Emit
 		} else {
